@@ -53,6 +53,10 @@ func zzC16World() []parser.K8sObject {
 		zzDeployObj("ns1", "b", map[string]string{"app": "b"}, nil),
 		zzDeployObj("ns2", "a", map[string]string{"app": "a2"}, nil),
 		zzDeployObj("ns2", "c", map[string]string{"app": "c"}, nil),
+		// names related by suffix / shared by two kinds must not be confused by the filter
+		zzDeployObj("ns1", "ba", map[string]string{"app": "ba"}, nil),
+		zzDeployObj("xns1", "a", map[string]string{"app": "xa"}, nil),
+		zzPodObj("ns1", "b", map[string]string{"app": "bpod"}, nil, ""),
 		zzNetpolObj("ns1", "np1", netv1.NetworkPolicySpec{
 			PodSelector: metav1.LabelSelector{MatchLabels: map[string]string{"app": "a"}},
 			Ingress: []netv1.NetworkPolicyIngressRule{{From: []netv1.NetworkPolicyPeer{{PodSelector: zzSel("app", "b")}, {NamespaceSelector: zzSel(zzNsNameLabel, "ns2")}},
@@ -70,7 +74,7 @@ func zzC16World() []parser.K8sObject {
 	return objs
 }
 
-var zzFocusValues = []string{"a", "ns1/a", "ns2/a", "b", "c", "zzz", "ns3/a", common.IngressPodName}
+var zzFocusValues = []string{"a", "ns1/a", "ns2/a", "b", "ns1/b", "c", "zzz", "ns3/a", "s1/a", common.IngressPodName}
 
 // zzMatchesFocus: the peer string "ns/name[Kind]" (or {ingress-controller}) matches the focus value
 func zzMatchesFocus(peerStr, focus string) bool {
